@@ -113,6 +113,8 @@ fn run_config(r: Arc<dyn Runner>, prop: Prop, tier: Tier, known: Arc<HashSet<Str
         "violations": st.violations.iter().map(|v| json!({"sig": v.sig, "detail": v.detail, "state": v.state, "edge": v.edge, "fault_at": v.fault_at, "config": r.name()})).collect::<Vec<_>>(),
         "paths": paths,
         "machinery": st.machinery,
+        "digest": format!("{:016x}", st.digest),
+        "alloc_feature": cfg!(feature = "alloc"),
         "bounds": {"lmax": b.lmax, "cmax": b.cmax},
         "exhaustive": true,
         "wall_s": t0.elapsed().as_secs_f64(),
